@@ -312,7 +312,8 @@ func checkC03(ref *progen.Ref, o *runOut) []finding {
 	}
 	if !o.res.Returned {
 		if len(o.res.Panics) > 0 {
-			return nil // a panic is C01's
+			// the injector does not return: it panicked (close of a nil channel, ...)
+			return []finding{{"panicked", fmt.Sprintf("the fault-free injector panicked instead of returning: %v", o.res.Panics)}}
 		}
 		out = append(out, finding{"deadlock", "no thread can move and the injector has not returned: " + describeBlocked(o.res.Blocked)})
 		return out
